@@ -6,7 +6,7 @@ V: pylogix (shares no code with cpppo) drives a live simulator thread: register,
    operation lists are emitted by TLC (MC_Interop); the recorded (operation, value, status) sequences are validated by TLC
    (ClientTrace) against the tag model of LogixOps: values exact, statuses mapped by a fixed table.
 R: request frames encoded octet by octet by the spec (Register, SendRRData with bare and Unconnected-Send-wrapped reads /
-   writes) are written raw to a TCP socket of the live simulator; the reply frames are validated by TLC (ServerTrace)
+   writes, (Large) Forward Open, SendUnitData with sequence counts, Forward Close) are written raw to a TCP socket of the live simulator; the reply frames are validated by TLC (ServerTrace)
    with the spec's decoder and must carry the tag model's values.  No cpppo code is on the checking side.
 """
 import json
@@ -99,13 +99,14 @@ def run_pylogix(job):
 
 def run_raw(job):
     """spec-encoded frames written raw to the live simulator; replies collected by length-prefixed framing"""
-    from .. import clientlib
+    from .. import clientlib, vsock
     cfg, mem0, frames = job
     srv = clientlib.server(dict(cfg, budget=488))
     clientlib.wait_idle()
     srv.dev.set_mem(mem0)
     ev = []
     s = socket.create_connection(srv.address, timeout=5)
+    me = s.getsockname()
     try:
         total = sum(len(f["fb"]) for f in frames)
         ev.append({"a": "recv", "n": total})
@@ -122,7 +123,7 @@ def run_raw(job):
             while True:
                 if len(buf) >= 24 and len(buf) >= 24 + buf[2] + 256 * buf[3]:
                     n = 24 + buf[2] + 256 * buf[3]
-                    ev.append({"a": "send", "b": list(buf[:n])})
+                    ev.append({"a": "send", "b": list(buf[:n]), "conns": vsock.open_connections(me)})
                     ended = buf[8:12] != b"\0\0\0\0"
                     buf = buf[n:]
                     break
@@ -148,6 +149,7 @@ def run_raw(job):
     finally:
         s.close()
     clientlib.wait_idle()
+    ev.append({"a": "conns-left", "n": len(vsock.open_connections(me))})
     sc = {"cfg": dict(cfg, budget=488), "pers": {"k": "any"}, "mem0": mem0, "frames": [f["f"] for f in frames]}
     return {"sc": sc, "ev": ev, "final": srv.dev.get_mem(), "others": True, "acc": 0, "sizes": [len(f["fb"]) for f in frames]}
 
@@ -199,11 +201,29 @@ def main(ctx):
     for _ in range(60 if ctx.quick else 600):
         fs = [rawreg[0]] + [rng.choice(raws) for _ in range(rng.randint(1, 3))]
         rjobs.append((cfg, mem0, fs))
+    rconn = [j for j in res.json if j.get("k") == "rawconn"]
+    runit = [j for j in res.json if j.get("k") == "rawunit"]
+    if not rconn or not runit:
+        ctx.machinery.append("connected raw frames not emitted")
+        return
+    opens = [j for j in rconn if j["f"]["kind"] == "fwdopen"]
+    for _ in range(60 if ctx.quick else 600):
+        o = rng.choice(opens)
+        fs = [rawreg[0], o]
+        for _ in range(rng.randint(1, 4)):
+            fs.append(rng.choice(runit + runit + opens + raws))
+        if rng.random() < 0.7:
+            fs.append(next(j for j in rconn if j["f"]["kind"] == "fwdclose" and j["f"]["fo"]["serial"] == o["f"]["fo"]["serial"]))
+            if rng.random() < 0.5:
+                fs.append(rng.choice(runit))
+        rjobs.append((cfg, mem0, fs))
     rlines = core.pmap(run_raw, rjobs, chunksize=4)
     for ln in rlines:
-        ev.case(key=json.dumps(ln["sizes"]) + json.dumps([f["req"]["svc"] for f in ln["sc"]["frames"]]), nontrivial=len(ln["sc"]["frames"]) > 2)
+        ev.case(key=json.dumps(ln["sizes"]) + json.dumps([f["kind"] + f["req"]["svc"] for f in ln["sc"]["frames"]]), nontrivial=len(ln["sc"]["frames"]) > 2)
     ev.sample({"raw_session": [f["kind"] + ":" + f["req"]["svc"] + ":" + f["wrap"] for f in rlines[0]["sc"]["frames"]],
                "events": [{k: (v if k != "b" else v[:44]) for k, v in e.items()} for e in rlines[0]["ev"]]})
+    ev.sample({"raw_connected_session": [f["kind"] + ":" + f["req"]["svc"] for f in rlines[-1]["sc"]["frames"]],
+               "events": [{k: (v if k != "b" else v[:50]) for k, v in e.items()} for e in rlines[-1]["ev"]]})
     bad = serverlib.validate(ctx, rlines, "raw")
     serverlib.report(ctx, bad, "C14raw")
     ev.extra.update({"pylogix_sessions": len(lines), "raw_sessions": len(rlines)})
